@@ -184,6 +184,24 @@ func genIdPConfig(t *rapid.T, o worldOpts) world.IdPConfig {
 			c.Endpoints = map[string]world.EndpointSpec{"sso": {Path: "ext-sso", URL: "https://gateway.example/public/sso"}}
 		}
 	}
+	if o.customSSO {
+		// the other protocol endpoints likewise: by path, or published under a URL of their own (a gateway in front)
+		for _, name := range []string{"slo", "attribute"} {
+			var e world.EndpointSpec
+			switch rapid.IntRange(0, 4).Draw(t, name+"endpoint") {
+			case 3:
+				e = world.EndpointSpec{Path: name + "/v2"}
+			case 4:
+				e = world.EndpointSpec{Path: "ext-" + name, URL: "https://gateway.example/public/" + name}
+			default:
+				continue
+			}
+			if c.Endpoints == nil {
+				c.Endpoints = map[string]world.EndpointSpec{}
+			}
+			c.Endpoints[name] = e
+		}
+	}
 	if o.signingFlags {
 		c.WantAuthRequestsSigned = rapid.SampledFrom([]string{"", "", "false", "true", "1"}).Draw(t, "wantsigned")
 	}
